@@ -338,6 +338,7 @@ class Run(object):
         self.functions = []
         self.functions_bounded = []
         self.bounded = None
+        self.bounded_violations = []     # [(name, doc)] failing inputs found by a bounded native stand-in
         self.known_hit = {}
         self.vacuity = {'ensures_false_refuted': 0, 'units': 0}
 
@@ -603,6 +604,14 @@ class Run(object):
             print('  %s [%s]: %s' % (uname, model_summary(fd.model), '; '.join(n.split('/', 1)[-1] for n in names)[:300]))
             vio_files.append(rel)
             exit_code = 1
+        for name, doc in self.bounded_violations[:10]:
+            import hashlib
+            h = hashlib.sha1(json.dumps(doc, default=str, sort_keys=True).encode()).hexdigest()[:8]
+            path = os.path.join(REPLAY_DIR, '%s-bounded-%s-%s.json' % (self.prop, re.sub(r'[^A-Za-z0-9_.-]+', '_', name)[:60], h))
+            with open(path, 'w') as fh:
+                json.dump(dict(doc, property=self.prop, obligation='bounded:' + name), fh, indent=1, default=str)
+            lines.append('VIOLATION property=%s replay=%s' % (self.prop, os.path.relpath(path, VERIF)))
+            exit_code = 1
         if self.engine_mismatches:
             for mm in self.engine_mismatches[:10]:
                 lines.append('CHECKER-ERROR: property=%s engine/CPython disagreement or vacuity in %s: %s' % (
@@ -648,7 +657,7 @@ class Run(object):
             cov.update(extra_coverage)
         ev = {'property_id': self.prop, 'tier': self.tier, 'seed': self.seed, 'level': level, 'coverage': cov,
               'assumptions': self.assumptions, 'wall_s': round(time.time() - self.t0, 2),
-              'violations': len(vgroups)}
+              'violations': len(vgroups) + len(self.bounded_violations)}
         os.makedirs(EVID_DIR, exist_ok=True)
         with open(os.path.join(EVID_DIR, '%s.json' % self.prop), 'w') as fh:
             json.dump(ev, fh, indent=1, default=str)
